@@ -284,6 +284,77 @@ func randomCase[T constraints.Integer](c *mon.Case, base T, tname string) {
 	}
 }
 
+// poolHistory keeps every map it ever built or got back and uses them again as
+// operands: an operation must neither change its operands nor any earlier result
+// (results sharing storage with operands would be overwritten by later operations).
+func poolHistory[T constraints.Integer](c *mon.Case, base T, tname string) {
+	const n = 24
+	type ent struct {
+		m    interval.Map[T]
+		mask uint64
+		how  string
+	}
+	var pool []ent
+	for i := 0; i < 3; i++ {
+		l := randList(c, n) // possibly overlapping lists: NewMap merges, leaving spare capacity
+		var is []interval.Interval[T]
+		for _, x := range l {
+			is = append(is, interval.New(base+T(x[0]), base+T(x[1])))
+		}
+		var m interval.Map[T]
+		if p, _, _ := mon.Try(func() { m = interval.NewMap(is...) }); p {
+			return // reported by checkNewMap
+		}
+		pool = append(pool, ent{m, maskOf(l), fmt.Sprintf("NewMap%v", l)})
+	}
+	var hist []string
+	for step := 0; step < 24; step++ {
+		op := ops[c.Rng.Intn(3)]
+		i, j := c.Rng.Intn(len(pool)), c.Rng.Intn(len(pool))
+		if c.Rng.Intn(3) == 0 { // a small fresh operand placed before/behind/inside
+			b := c.Rng.Intn(n - 1)
+			e := b + 1 + c.Rng.Intn(minInt(3, n-b-1)+1)
+			if e > n {
+				e = n
+			}
+			pool = append(pool, ent{interval.NewMap(interval.New(base+T(b), base+T(e))), maskOf([][2]int{{b, e}}), fmt.Sprintf("[%d,%d)", b, e)})
+			j = len(pool) - 1
+		}
+		hist = append(hist, fmt.Sprintf("#%d=%s(#%d,#%d)", len(pool), op.name, i, j))
+		var res interval.Map[T]
+		p, val, stack := mon.Try(func() { res = apply(op.name, pool[i].m, pool[j].m) })
+		c.Eval(1)
+		feat := map[string]string{"op": op.name, "when": "pool-history"}
+		if p {
+			c.Fail("C17.op.panic", feat, "%s over %s: %v panicked: %v\n%s", tname, tname, hist, val, stack)
+			return
+		}
+		want := op.ref(pool[i].mask, pool[j].mask)
+		if msg := verify(res, want, n, base); msg != "" {
+			c.Fail("C17.op.result", feat, "pool history over %s %v: result %s: %s", tname, hist, fmtIntvs(res.Intervals()), msg)
+			return
+		}
+		pool = append(pool, ent{res, want, hist[len(hist)-1]})
+		for k, e := range pool {
+			if msg := verify(e.m, e.mask, n, base); msg != "" {
+				c.Fail("C17.op.earlier-map-changed", map[string]string{"op": op.name}, "pool history over %s %v: map #%d (%s) no longer denotes its set after the last operation: now %s: %s", tname, hist, k, e.how, fmtIntvs(e.m.Intervals()), msg)
+				return
+			}
+		}
+		if len(pool) > 14 {
+			pool = pool[len(pool)-14:]
+		}
+	}
+	c.Count("pool_history_ops", 24)
+}
+
+func minInt(a, b int) int {
+	if a < b {
+		return a
+	}
+	return b
+}
+
 func run(c *mon.Case) {
 	u := exhQuickU
 	if !c.Quick() {
@@ -336,16 +407,19 @@ func run(c *mon.Case) {
 		switch c.Rng.Intn(6) {
 		case 0:
 			randomCase[uint8](c, 0, "uint8@0")
+			poolHistory[uint8](c, 0, "uint8@0")
 		case 1:
 			randomCase[uint8](c, math.MaxUint8-24, "uint8@max")
 		case 2:
 			randomCase[int16](c, math.MinInt16, "int16@min")
 		case 3:
 			randomCase[int16](c, -12, "int16@-12")
+			poolHistory[int16](c, -12, "int16@-12")
 		case 4:
 			randomCase[uint64](c, math.MaxUint64-24, "uint64@max")
 		default:
 			randomCase[uint64](c, 1<<63-12, "uint64@2^63")
+			poolHistory[uint64](c, 1<<63-12, "uint64@2^63")
 		}
 		c.Count("random_histories", 1)
 		if c.WantSample() {
@@ -358,7 +432,7 @@ func main() {
 	mon.Main(mon.Spec{
 		Prop: "C17",
 		Rule: "case = (operation, operand sets); exhaustive over all pairs of subsets of a small universe in canonical form, all lists of <=3 intervals over 7 points through NewMap, plus random interval lists with duplicates/nesting/adjacency at the extremes of uint8/int16/uint64; non-trivial = result has >=2 intervals, or an operand is empty, or one interval spans two of the other operand",
-		Explanation: "oracle: bitset over the universe; every result must be sorted, disjoint, non-adjacent, non-empty and denote exactly the reference set; operands must be unchanged; panics are violations. exhaustive=true refers to the pair enumeration over the 10-point (quick) / 12-point (thorough) universe and the NewMap list enumeration.",
+		Explanation: "oracle: bitset over the universe; every result must be sorted, disjoint, non-adjacent, non-empty and denote exactly the reference set; operands must be unchanged; in the pool histories (24 operations whose operands are earlier operands and results) every map built or returned so far must still denote its set after each operation; panics are violations. exhaustive=true refers to the pair enumeration over the 10-point (quick) / 12-point (thorough) universe and the NewMap list enumeration.",
 		Assumptions: []string{"bitset reference over a <=24 point window", "interval.New with begin<end is the only way inputs are built"},
 		Cases:       cases,
 		Floor: func(t string) int {
@@ -367,7 +441,8 @@ func main() {
 			}
 			return 200000
 		},
-		Exhaustive: func(string) bool { return true },
+		Exhaustive:     func(string) bool { return true },
+		RequiredCounts: []string{"pool_history_ops", "random_histories", "exhaustive_pairs"},
 		Run:        run,
 	})
 }
